@@ -25,7 +25,7 @@ def g4 (b0 b1 b2 b3 : UInt8) : Option (Nat × Nat) :=
     if !isCont b3 then none else
     let c := ((((((b0 &&& 0x07).toNat <<< 6) ||| (b1 &&& 0x3F).toNat) <<< 6) ||| (b2 &&& 0x3F).toNat) <<< 6) |||
       (b3 &&& 0x3F).toNat
-    if c < 0x1000 || c > 0x10FFFF then none else some (c, 4)
+    if c < 0x10000 || c > 0x10FFFF then none else some (c, 4)
   else none
 
 theorem getUtf8_eq_g4 (inp : Bytes) : getUtf8 inp = g4 (rd inp 0) (rd inp 1) (rd inp 2) (rd inp 3) := by
